@@ -48,3 +48,19 @@ def sds_harnesses(sels=("SEL_FLUSH", "SEL_HEADER")):
                          functions=["sds_close", "sds_write_header", "sds_2byte_write", "sds_2byte_read"],
                          bounds="16-bit SDS, %d complete packet(s) before, pending packet with fill level %d (grid), all sample values symbolic" % (blk, kf)))
     return out
+
+
+def dwvw_harnesses():
+    out = []
+    for bitw, t, rd, wr, lowzero in ((16, "short", "dwvw_read_s", "dwvw_write_s", 0), (12, "short", "dwvw_read_s", "dwvw_write_s", 4),
+                                     (24, "int", "dwvw_read_i", "dwvw_write_i", 8), (16, "int", "dwvw_read_i", "dwvw_write_i", 16)):
+        for ns in (1, 2, 3):
+            d = {"BITW": bitw, "T": t, "NDT": t, "READ_FN": rd, "WRITE_FN": wr, "LOWZERO": lowzero, "NS": ns, "MF_CAP": 40, "MF_MAXIO": 40, "MF_NFILES": 2,
+                 "MEMCPY_MAX": 320, "LIBSNDFILE_VERIF_BUFFER_LEN": 16}
+            out.append(H("dwvw%d.%s.n%d" % (bitw, t, ns), "L3/dwvw_rt.c", link=["common"], stubs=["psf_log_printf", "psf_memset"], defines=d,
+                         unwind=34, unwindset=["psf_fread.0:41", "psf_fwrite.0:41", "psf_memset.0:65", "memcpy.0:321", "memset.0:321", "main.1:42", "main.2:42"],
+                         checks="mem", solver="kissat", witness="twin", include_env=("log_stub", "memfile", "memset_model", "memcpy_model"), timeout=1800,
+                         tiers=("thorough",),
+                         functions=["dwvw_write_*", "dwvw_encode_data", "dwvw_encode_store_bits", "dwvw_close", "dwvw_read_*", "dwvw_decode_data", "dwvw_decode_load_bits", "dwvw_read_reset"],
+                         bounds="%d-bit DWVW, %d sample(s) (grid), every sample value symbolic, split point symbolic" % (bitw, ns)))
+    return out
